@@ -22,7 +22,7 @@ package floatingip
 // ---- table invariant (I1-I3 of DESIGN.md) ----
 //@ pure tblOK(m map[string]*FloatingIP) bool = m != nil && forall k string :: k in m ==> m[k] != nil && m[k].pool != nil && ipstr(m[k].IP) == k
 //@ pure freeEntry(f *FloatingIP) bool = f.Key == "" && f.NodeName == "" && f.PodUid == "" && f.Policy == 0
-//@ pure inv(ci *crdIpam) bool = ci.cacheLock != nil && tblOK(ci.allocatedFIPs) && tblOK(ci.unallocatedFIPs) && ci.allocatedFIPs != ci.unallocatedFIPs && (forall k string :: !(k in ci.allocatedFIPs && k in ci.unallocatedFIPs)) && (forall k string :: k in ci.unallocatedFIPs ==> freeEntry(ci.unallocatedFIPs[k]))
+//@ pure inv(ci *crdIpam) bool = ci.cacheLock != nil && ci.client != nil && tblOK(ci.allocatedFIPs) && tblOK(ci.unallocatedFIPs) && ci.allocatedFIPs != ci.unallocatedFIPs && (forall k string :: !(k in ci.allocatedFIPs && k in ci.unallocatedFIPs)) && (forall k string :: k in ci.unallocatedFIPs ==> freeEntry(ci.unallocatedFIPs[k]))
 
 // ---- memory = Store on configured IPs ----
 //@ pure entrySynced(k string, f *FloatingIP) bool = StoreDom[k] && StoreKey[k] == f.Key && StorePolicy[k] == f.Policy && StoreNode[k] == f.NodeName && StoreUid[k] == f.PodUid
@@ -33,27 +33,42 @@ package floatingip
 //@ pure tablesSameExcept(ci *crdIpam, ip string) bool = forall k string :: k != ip ==> ((k in ci.allocatedFIPs) == old(k in ci.allocatedFIPs)) && ((k in ci.unallocatedFIPs) == old(k in ci.unallocatedFIPs)) && ci.allocatedFIPs[k] == old(ci.allocatedFIPs[k]) && ci.unallocatedFIPs[k] == old(ci.unallocatedFIPs[k])
 //@ pure tablesSame(ci *crdIpam) bool = forall k string :: ((k in ci.allocatedFIPs) == old(k in ci.allocatedFIPs)) && ((k in ci.unallocatedFIPs) == old(k in ci.unallocatedFIPs)) && ci.allocatedFIPs[k] == old(ci.allocatedFIPs[k]) && ci.unallocatedFIPs[k] == old(ci.unallocatedFIPs[k])
 //@ pure entriesSameExcept(q *FloatingIP) bool = forall p *FloatingIP :: allocated(p) && p != q ==> sameEntry(p)
-//@ pure ciFieldsSame(ci *crdIpam) bool = ci.allocatedFIPs == old(ci.allocatedFIPs) && ci.unallocatedFIPs == old(ci.unallocatedFIPs) && ci.cacheLock == old(ci.cacheLock) && ci.FloatingIPs == old(ci.FloatingIPs)
+//@ pure ciFieldsSame(ci *crdIpam) bool = ci.client == old(ci.client) && ci.allocatedFIPs == old(ci.allocatedFIPs) && ci.unallocatedFIPs == old(ci.unallocatedFIPs) && ci.cacheLock == old(ci.cacheLock) && ci.FloatingIPs == old(ci.FloatingIPs)
 
-// ---- trusted boundary to the API server (store_crd.go): functional contracts ASSUMED ----
-// Each call either fails cleanly (error, Store unchanged) or succeeds with the obvious effect.
-//@ func [C01,C05,C08,C09] (*crdIpam).createFloatingIP trusted
-//@   requires allocated != nil
-//@   modifies StoreDom, StoreKey, StorePolicy, StoreNode, StoreUid, faults
-//@   ensures result != nil ==> storeUnchanged() && result != ErrNoEnoughIP && old(faults) > 0 && faults == old(faults) - 1
-//@   ensures result == nil ==> faults == old(faults)
-//@   ensures result == nil ==> !old(StoreDom)[ipstr(allocated.IP)]
-//@   ensures result == nil ==> StoreDom == old(StoreDom)[ipstr(allocated.IP) := true] && StoreKey == old(StoreKey)[ipstr(allocated.IP) := allocated.Key] && StorePolicy == old(StorePolicy)[ipstr(allocated.IP) := allocated.Policy] && StoreNode == old(StoreNode)[ipstr(allocated.IP) := allocated.NodeName] && StoreUid == old(StoreUid)[ipstr(allocated.IP) := allocated.PodUid]
-//@ func [C01,C05,C08,C09] (*crdIpam).deleteFloatingIP trusted
+// ---- store_crd.go wrappers: VERIFIED against the assumed behaviour of the generated client ----
+// (contracts of the client are in pkg/ipam/client/clientset/versioned/typed/galaxy/v1alpha1)
+//@ uninterp attrNode(attribute string) string
+//@ uninterp attrUid(attribute string) string
+//@ uninterp json_Attr(a Attr) string
+// encoding/json round trip of the attribute (assumed): the stored JSON determines node and uid
+//@ axiom attrJSONRoundTrip: forall a Attr :: attrNode(json_Attr(a)) == a.NodeName && attrUid(json_Attr(a)) == a.Uid
+
+//@ func [C01,C05,C13] assign
+//@   requires spec != nil && f != nil
+//@   ensures [C05,C01:assign-copies-owner] result == nil ==> spec.Spec.Key == f.Key && spec.Spec.Policy == f.Policy && attrNode(spec.Spec.Attribute) == f.NodeName && attrUid(spec.Spec.Attribute) == f.PodUid
+//@   ensures spec.Name == old(spec.Name) && result == nil
+//@   modifies spec.Spec, fresh elemsof(byte)
+
+//@ func newFIPCrd inline
+//@ func (*crdIpam).newFIPCrd inline
+
+//@ func [C01,C05,C08,C09] (*crdIpam).createFloatingIP
+//@   requires allocated != nil && ci.client != nil
+//@   modifies StoreDom, StoreKey, StorePolicy, StoreNode, StoreUid, faults, fresh elemsof(byte), fresh v1alpha1.FloatingIP.*, fresh mapsof(map[string]string)
+//@   ensures [C01,C05] result != nil ==> storeUnchanged() && result != ErrNoEnoughIP
+//@   ensures result != nil ==> old(faults) > 0 && faults == old(faults) - 1
+//@   ensures [C01:create-refuses-existing] result == nil ==> !old(StoreDom)[ipstr(allocated.IP)]
+//@   ensures [C05:create-persists-owner] result == nil ==> faults == old(faults) && StoreDom == old(StoreDom)[ipstr(allocated.IP) := true] && StoreKey == old(StoreKey)[ipstr(allocated.IP) := allocated.Key] && StorePolicy == old(StorePolicy)[ipstr(allocated.IP) := allocated.Policy] && StoreNode == old(StoreNode)[ipstr(allocated.IP) := allocated.NodeName] && StoreUid == old(StoreUid)[ipstr(allocated.IP) := allocated.PodUid]
+//@ func [C01,C05,C08,C09] (*crdIpam).deleteFloatingIP
+//@   requires ci.client != nil
 //@   modifies StoreDom, faults
 //@   ensures result != nil ==> StoreDom == old(StoreDom) && old(faults) > 0 && faults == old(faults) - 1
 //@   ensures result == nil ==> StoreDom == old(StoreDom)[name := false] && faults == old(faults)
-//@ func [C01,C05] (*crdIpam).updateFloatingIP trusted
-//@   requires toUpdate != nil
-//@   modifies StoreKey, StorePolicy, StoreNode, StoreUid, faults
-//@   ensures result != nil ==> storeUnchanged() && old(faults) > 0 && faults == old(faults) - 1
-//@   ensures result == nil ==> old(StoreDom)[ipstr(toUpdate.IP)] && faults == old(faults)
-//@   ensures result == nil ==> StoreKey == old(StoreKey)[ipstr(toUpdate.IP) := toUpdate.Key] && StorePolicy == old(StorePolicy)[ipstr(toUpdate.IP) := toUpdate.Policy] && StoreNode == old(StoreNode)[ipstr(toUpdate.IP) := toUpdate.NodeName] && StoreUid == old(StoreUid)[ipstr(toUpdate.IP) := toUpdate.PodUid]
+//@ func [C01,C05] (*crdIpam).updateFloatingIP
+//@   requires toUpdate != nil && ci.client != nil
+//@   modifies StoreKey, StorePolicy, StoreNode, StoreUid, faults, fresh elemsof(byte), fresh v1alpha1.FloatingIP.*
+//@   ensures [C05] result != nil ==> storeUnchanged()
+//@   ensures [C05:update-persists-owner] result == nil ==> old(StoreDom)[ipstr(toUpdate.IP)] && StoreKey == old(StoreKey)[ipstr(toUpdate.IP) := toUpdate.Key] && StorePolicy == old(StorePolicy)[ipstr(toUpdate.IP) := toUpdate.Policy] && StoreNode == old(StoreNode)[ipstr(toUpdate.IP) := toUpdate.NodeName] && StoreUid == old(StoreUid)[ipstr(toUpdate.IP) := toUpdate.PodUid]
 
 // small constructors/mutators are inlined at their call sites (their real bodies are executed)
 //@ func New inline
@@ -228,7 +243,7 @@ package floatingip
 // EVERY store content and configuration: the new tables are disjoint and every free entry is blank
 // and filed under its own IP string.
 //@ func [C01,C05,C06,C09] (*crdIpam).ConfigurePool
-//@   requires ci.cacheLock != nil && held[ptr(ci.cacheLock)] == 0
+//@   requires ci.cacheLock != nil && ci.client != nil && held[ptr(ci.cacheLock)] == 0
 //@   requires forall i int :: 0 <= i && i < len(floatIPs) ==> floatIPs[i] != nil
 //@   requires forall p *FloatingIPPool, r int {p.IPRanges[r]} :: allocated(p) && 0 <= r && r < len(p.IPRanges) ==> nets.wfRange(p.IPRanges[r])
 //@   ensures [C01,C09,C06:reload-tables-disjoint] result == nil ==> ci.allocatedFIPs != nil && ci.unallocatedFIPs != nil && ci.allocatedFIPs != ci.unallocatedFIPs && forall k string :: !(k in ci.allocatedFIPs && k in ci.unallocatedFIPs)
